@@ -112,7 +112,7 @@ func runC06(r *Run) {
 	r.NotDec = []string{"that the diff equals 'previous set (+) updates = top set' for all inputs (algorithmic correctness)", "power values themselves (C05)"}
 	r.Assume = []string{"the SDK panics on two non-empty validator update lists; module.Manager order as wired in app.go"}
 	r.rule("C06.R1", "only dogfood EndBlock may return validator updates, and it returns/stores an empty list unless IsEpochEnd", 10)
-	r.rule("C06.R2", "told = stored: the list handed to SetValidatorUpdates is the returned (sorted) list; AppModule.EndBlock and Keeper.EndBlock pass it through unchanged", 4)
+	r.rule("C06.R2", "told = stored: the list handed to SetValidatorUpdates is the returned (sorted) list; AppModule.EndBlock and Keeper.EndBlock pass it through unchanged", 5)
 	r.rule("C06.R3", "the validator-set and total-power families are written only from dogfood EndBlock / InitGenesis call trees", 2)
 	r.rule("C06.R4", "ApplyValidatorChanges: cache-context discipline per change; an arm that does not commit ends in `continue`; the append to the outgoing list follows the switch unconditionally", 6)
 	r.rule("C06.R5", "no zero-power addition, no unknown removal: the not-found arm forwards only Power > 0; EndBlock breaks on power < 1 before queuing", 3)
@@ -233,6 +233,67 @@ func runC06(r *Run) {
 			}
 			return true
 		})
+		// the stored total power agrees with the stored set: it is written when (and only when) the complete
+		// update list is non-empty, i.e. after the last append to that list, with the accumulated total
+		{
+			var listObj types.Object
+			for _, c := range eb.CallsNamed("ApplyValidatorChanges") {
+				if len(c.Args) == 2 {
+					listObj = eb.objOf(c.Args[1])
+				}
+			}
+			okTP := false
+			why := "SetLastTotalPower is not called"
+			for _, c := range eb.CallsNamed("SetLastTotalPower") {
+				why = ""
+				guarded := eb.factsOf(c).cmp(func(cm cmp) bool {
+					return cm.Op == ">" && exprString(cm.R) == "0" && isLenOf(cm.L) && listObj != nil && eb.objOf(stripParens(cm.L).(*ast.CallExpr).Args[0]) == listObj
+				})
+				if !guarded {
+					why = "SetLastTotalPower is not guarded by len(<update list>) > 0"
+				}
+				var guardIf ast.Node
+				for _, f := range eb.FactsAt(c, false) {
+					if f.At != nil && strings.Contains(exprString(f.Atom), "len(") {
+						guardIf = f.At
+					}
+				}
+				late := ""
+				ast.Inspect(eb.Decl.Body, func(n ast.Node) bool {
+					as, ok := n.(*ast.AssignStmt)
+					if !ok || len(as.Lhs) != 1 || listObj == nil || eb.objOf(as.Lhs[0]) != listObj {
+						return true
+					}
+					ref := c.Pos()
+					if guardIf != nil {
+						ref = guardIf.Pos()
+					}
+					if as.Pos() > ref {
+						late = eb.pos(as)
+					}
+					return true
+				})
+				if late != "" {
+					why = "the update list is still being extended at " + late + " after the `len(...) > 0` test that decides whether the total power is stored: an epoch whose only changes are removals keeps the old total"
+				}
+				// the stored value is the accumulator that received every kept validator's power
+				accOK := false
+				if len(c.Args) == 2 {
+					acc := eb.objOf(c.Args[1])
+					ast.Inspect(eb.Decl.Body, func(n ast.Node) bool {
+						if as, ok := n.(*ast.AssignStmt); ok && len(as.Lhs) == 1 && acc != nil && eb.objOf(as.Lhs[0]) == acc && eb.addChainOn(as.Lhs[0], as.Rhs[0]) {
+							accOK = true
+						}
+						return true
+					})
+				}
+				if !accOK && why == "" {
+					why = "the stored total is not the accumulated power of the kept validators"
+				}
+				okTP = why == ""
+			}
+			r.check(okTP, "C06.R2", "EndBlock|total-power-after-complete-list", eb.pos(eb.Decl), "the stored total power is written after the update list is complete, whenever it is non-empty", why)
+		}
 		r.check(pass, "C06.R2", "EndBlock|returns-applied", eb.pos(eb.Decl), "EndBlock returns what ApplyValidatorChanges stored", "EndBlock does not return ApplyValidatorChanges' result directly")
 		if mv := w.View("x/dogfood", "AppModule.EndBlock"); mv != nil {
 			ok := false
